@@ -156,40 +156,7 @@ def run(ctx):
     run_r4(ctx)
 
 
-# ---------------------------------------------------------------- linear normal form of index expressions
-class _NotLinear(Exception):
-    pass
-
-
-def _lin(e, expand):
-    """{atom text: coefficient, 1: constant} of an integer expression built from + - and atoms"""
-    if isinstance(e, ast.Constant) and isinstance(e.value, int) and not isinstance(e.value, bool):
-        return {1: e.value}
-    if isinstance(e, ast.BinOp) and isinstance(e.op, (ast.Add, ast.Sub)):
-        a, b = _lin(e.left, expand), _lin(e.right, expand)
-        sgn = 1 if isinstance(e.op, ast.Add) else -1
-        out = dict(a)
-        for k, v in b.items():
-            out[k] = out.get(k, 0) + sgn * v
-        return {k: v for k, v in out.items() if v != 0 or k == 1}
-    if isinstance(e, ast.UnaryOp) and isinstance(e.op, ast.USub):
-        return {k: -v for k, v in _lin(e.operand, expand).items()}
-    if isinstance(e, ast.BinOp) and isinstance(e.op, ast.Mult):
-        for c_, o_ in ((e.left, e.right), (e.right, e.left)):
-            if isinstance(c_, ast.Constant) and isinstance(c_.value, int):
-                return {k: c_.value * v for k, v in _lin(o_, expand).items()}
-        raise _NotLinear(ast.unparse(e))
-    x = expand(e)
-    if x is not None:
-        return _lin(x, expand)
-    if isinstance(e, (ast.Name, ast.Attribute, ast.Subscript, ast.Call)):
-        return {ast.unparse(e): 1}
-    raise _NotLinear(ast.unparse(e))
-
-
-def _same(a, b):
-    keys = set(a) | set(b)
-    return all(a.get(k, 0) == b.get(k, 0) for k in keys)
+from sa.linform import lin_py as _lin, same as _same, NotLinear as _NotLinear   # noqa: E402
 
 
 def _subst(e, env):
